@@ -42,3 +42,13 @@ Proof.
   induction fuel as [|f IH]; intros l; cbn [split_blocks]; [constructor|].
   destruct l as [|x l']; [constructor|]. constructor; [apply firstn_le_length|apply IH].
 Qed.
+
+Lemma input_modes_agree_lemma blocks :
+  let c := concat blocks in
+  file_mode c = library_text c /\ eval_mode c = library_text c /\ stdin_mode blocks = library_text c.
+Proof.
+  cbv zeta. unfold file_mode, eval_mode, stdin_mode, library_text, handed_on.
+  unfold cli_file_text_passthrough, cli_eval_text_passthrough, cli_stdin_text_passthrough,
+    cli_run_source_text_passthrough. cbn [andb].
+  rewrite stdin_equals_file_lemma. repeat split; reflexivity.
+Qed.
